@@ -320,6 +320,23 @@ theorem C01_component_roundtrip {α : Type} [Arith α] (c : AComp) (p : CPad) (s
         { s with cur := A.length + ts.length }) ∧ IngrMatches s.cs c ing :=
   rt_ingredientP c p s hwf hp A ts rest hs ht hc hrest hrun
 
+/-- The same for cookware `# modifiers name [| alias] { quantity } [(note)]`: additionally the
+    quantity has no unit and `@` is not among the modifiers (both are errors for cookware,
+    `AComp.wfCookware`); the parsed quantity is the value with its lock. -/
+theorem C01_component_roundtrip_cookware {α : Type} [Arith α] (c : AComp) (p : CPad) (s : BP α)
+    (hwf : c.wfCookware s.cs s.ext = true) (hp : p.ok s.cs = true)
+    (A ts rest : List Tok) (hs : Spells ts (spellCookware c p)) (ht : s.toks = A ++ (ts ++ rest))
+    (hc : s.cur = A.length) (hrest : restOK c rest = true) (hrun : RunAt (baseOff s.toks) s.toks) :
+    ∃ cw : PCookware α,
+      cookwareP s = (some (.cookware ⟨cw, ⟨offAt s.toks A.length, offAt s.toks (A.length + ts.length)⟩⟩),
+        { s with cur := A.length + ts.length }) ∧ CwMatches s.cs c cw :=
+  rt_cookwareP c p s hwf hp A ts rest hs ht hc hrest hrun
+
+example : ({ mods := [.minus], name := [tk .word "large".toList, tk .ws [' '], tk .word "pot".toList],
+    qty := some { val := .num (.int ['2']) } } : AComp).wfCookware toyCharSpec C01_allExt = true := by decide
+example : ({ name := [tk .word "pan".toList], qty := some { val := .num (.int ['2']), unit := some [tk .word ['l']] } } : AComp).wfCookware
+    toyCharSpec C01_allExt = false := by decide
+
 /-! examples: `@-?olive oil |EVOO {= 1 1 / 2 % fl oz }(cold pressed)` satisfies the side
     conditions under the full extension set; each clause of `AComp.wf` is needed -/
 def C01_allExt : Ext := ⟨Gen.EXT_COMPONENT_MODIFIERS ||| Gen.EXT_COMPONENT_ALIAS ||| Gen.EXT_ADVANCED_UNITS |||
